@@ -86,8 +86,13 @@ def make_cert(cert_config: dict[str, str], path: Path) -> None:
     :param path: Path to write `cert_config` to
     """
     path.parent.mkdir(parents=True, exist_ok=True)
-    with path.open("w+", encoding="utf-8") as file:
+    # Written next to the certificate and moved over it in one step: a build that is
+    # interrupted here leaves the old certificate or none, never a truncated one
+    # (the next build would read shortened internal names from it).
+    tmp_path = path.with_name(path.name + ".tmp")
+    with tmp_path.open("w+", encoding="utf-8") as file:
         file.write(cert_config_to_string(cert_config))
+    os.replace(tmp_path, path)
 
 
 def get_cert() -> dict[str, str]:
